@@ -26,7 +26,7 @@ import (
 func init() {
 	Registry["C09"] = RunC09
 	Metas["C09"] = Meta{
-		Rule: "episode = (dirtying history, probe): 1..3 requests with generated wire shapes (query, form, multipart, cookies, chunked+trailers, streamed body) whose handler runs a program of 1..12 exported mutators of RequestContext/Request/Response/RequestHeader/ResponseHeader/URI/Args/Trailer enumerated by reflection (plus Abort*, Error, Set, panic under the recovery middleware), ending normally / in a recovered panic / 400 / 413 / peer RST mid-body / peer FIN mid-header / write fault / Connection: close / through the pooled chunked body writer / with body streams whose Close fails; optionally a forced garbage collection with its finalizers (fault gc) before the probe; then a fixed probe request on the same keep-alive connection or on a new connection that gets the recycled context (reuse verified by pointer identity), whose handler dumps every exported getter (enumerated by reflection) and whose raw response bytes are captured; compared with the same probe on a brand-new engine. Sub-check: Acquire/Release round trips of Request/Response/URI/Cookie/Args. Non-trivial: the probe ran on a recycled object (identity verified) after >= 1 mutator; distinct = abstract signature (mutator names, outcome, probe placement).",
+		Rule: "episode = (dirtying history, probe): 1..3 requests with generated wire shapes (query, form, multipart, cookies, chunked+trailers, streamed body) whose handler runs a program of 1..12 exported mutators of RequestContext/Request/Response/RequestHeader/ResponseHeader/URI/Args/Trailer enumerated by reflection (plus Abort*, Error, Set, panic under the recovery middleware), ending normally / in a recovered panic / 400 / 413 / peer RST mid-body / peer FIN mid-header / write fault / Connection: close / through the pooled chunked body writer / with body streams whose Close fails; optionally a forced garbage collection with its finalizers (fault gc) before the probe; then a fixed probe request on the same keep-alive connection or on a new connection that gets the recycled context (reuse verified by pointer identity), whose handler dumps every exported getter (enumerated by reflection) and whose raw response bytes are captured; compared with the same probe on a brand-new engine. Sub-check: Acquire/Release round trips of Request/Response/URI/Cookie/Args. Non-trivial: the probe ran on a recycled object (identity verified) after >= 1 mutator; distinct = abstract signature (mutator names, outcome, probe placement). Later still: a ctx.Copy() and the Keys map kept by the dirtying handler and written to while the probe runs, nil-ness of Keys, what the setters do with lower-case names (normalisation flags), DisableNormalizing in the alphabet.",
 		Real: []string{"RequestContext.ResetWithoutConn/Reset", "Request/Response/RequestHeader/ResponseHeader/URI/Args/Cookie/Trailer Reset paths", "http1.Server.Serve keep-alive loop + getRequestContext/putRequestContext", "route.Engine ctx pool", "protocol.Acquire*/Release* pools", "recovery middleware"},
 		Stub: []string{"TCP (SimConn)", "peer (scripted actor)", "transporter accept loop (stub)", "clock (synctest)"},
 		Assumptions: []string{
